@@ -148,9 +148,9 @@ func genDecoders(c *Ctx) {
 	}
 	// hostile declared lengths and moderately deep nesting, in process
 	hostile := [][]byte{
-		append([]byte{0x5b}, bytes.Repeat([]byte{0xff}, 8)...),                         // byte string of 2^64-1
-		append([]byte{0x7b, 0x00, 0x00, 0x00, 0x10, 0x00, 0x00, 0x00, 0x00}, 'a'),      // text string of 2^36
-		append([]byte{0x9b}, append(bytes.Repeat([]byte{0x7f}, 8), 0x01)...),           // array of 2^63
+		append([]byte{0x5b}, bytes.Repeat([]byte{0xff}, 8)...),                           // byte string of 2^64-1
+		append([]byte{0x7b, 0x00, 0x00, 0x00, 0x10, 0x00, 0x00, 0x00, 0x00}, 'a'),        // text string of 2^36
+		append([]byte{0x9b}, append(bytes.Repeat([]byte{0x7f}, 8), 0x01)...),             // array of 2^63
 		append([]byte{0xbb}, append(bytes.Repeat([]byte{0x7f}, 8), 0x61, 0x61, 0x01)...), // map of 2^63
 		append([]byte{0x82, 0x5b}, bytes.Repeat([]byte{0xff}, 8)...),
 		bytes.Repeat([]byte{0x81}, 5000),
@@ -183,6 +183,8 @@ func genDecoders(c *Ctx) {
 		{{kind: "all", sel: ".a", subs: []pstmt{{kind: "any", sel: ".", subs: []pstmt{{kind: ">=", sel: ".", val: basicnode.NewInt(0)}}}}}},
 		{{kind: "like", sel: ".a", pat: "*a*"}, {kind: "not", subs: []pstmt{{kind: "==", sel: ".a[0]?", val: basicnode.NewUint(math.MaxUint64)}}}},
 		{{kind: "==", sel: ".a", val: basicnode.NewUint(math.MaxUint64)}},
+		{{kind: "like", sel: ".a[10:]", pat: "*"}, {kind: "==", sel: ".a[-3:]", val: basicnode.NewString("x")}, {kind: "not", subs: []pstmt{{kind: "==", sel: ".a[0:]", val: basicnode.NewString("")}}}},
+		{{kind: "all", sel: ".l", subs: []pstmt{{kind: "like", sel: ".[1:][:-1]", pat: "*"}}}},
 		{{kind: "or", subs: []pstmt{{kind: "<", sel: ".a[-1]", val: basicnode.NewUint(1 << 63)}, {kind: "==", sel: ".[]", val: mkList()}}}},
 	}
 	big := basicnode.NewUint(math.MaxUint64)
@@ -190,6 +192,10 @@ func genDecoders(c *Ctx) {
 		mkMap(ent{"a", big}), mkMap(ent{"a", mkList(big, basicnode.NewInt(1))}), mkMap(ent{"a", mkList(mkList(big))}), big,
 		mkMap(ent{"a", basicnode.NewFloat(math.NaN())}), mkMap(ent{"a", basicnode.NewBytes(nil)}), mkMap(ent{"a", datamodel.Null}), datamodel.Null,
 		mkMap(ent{"a", basicnode.NewString(strings.Repeat("a*", 2000))}), mkList(), mkMap(), mkMap(ent{"a", mkMap(ent{"a", big})}),
+		// text outside ASCII, short and long (more bytes than code points), invalid UTF-8
+		mkMap(ent{"a", basicnode.NewString(strings.Repeat("ж", 40))}), mkMap(ent{"a", basicnode.NewString(strings.Repeat("日本語", 30))}),
+		mkMap(ent{"a", basicnode.NewString("né")}), mkMap(ent{"a", basicnode.NewString("\xff\xfe" + strings.Repeat("é", 20))}),
+		mkMap(ent{"l", mkList(basicnode.NewString(strings.Repeat("ø", 64)), basicnode.NewString("𐐀𐐨"), basicnode.NewString(""))}),
 	}
 	for _, j := range valuePool {
 		datas = append(datas, J(j))
